@@ -6,24 +6,36 @@ Sub-checks
     pairs        laws on arbitrary pairs: never raises, boolean, reflexive, symmetric, agrees with == on plain NaN-free values, in_ agrees
     copy_near    eq(x, structural copy with fresh NaN objects) is True; eq(x, near miss) is False (both directions)
     triples      transitivity on triples built from value-equal twins, copies and near misses
-    pool_cube    (thorough) every pair and triple of a fixed pool, exhaustive
+    large        the copy / near-miss laws on values of 40-257 cells
+    session      objects built ONCE and asked several times: in-place changes between calls (state kept between calls, the caller's own containers),
+                 values sharing member objects / one object twice / views cut out of one array or frame (object identity among the inputs)
+    pool_cube    every pair and triple of a fixed pool, exhaustive
 """
 import datetime
+import math
+import os
 
 import numpy as np
 import pandas as pd
 from hypothesis import strategies as st
 
-from pv.core import Sub, EnumSub, Violation, call, check, short
+from pv.core import Sub, EnumSub, Violation, HarnessError, call, check, short
 from pv.codec import build as build_scalar, Env, D0, mkdt
 
 ASSUMPTIONS = [
-    'dict keys are strings; nesting depth <= 3; numbers are small (|x| < 2**24) so that ==, which eq agrees with, is itself transitive across int/float/float32',
+    'dict keys are strings; nesting depth <= 3',
+    'transitivity (triples, pool_cube) is checked on small numbers only (|x| < 2**24) so that ==, which eq agrees with, is itself transitive across int / float / float32 / numpy scalars; '
+    'the pair, copy / near-miss and session laws also run on ints beyond 2**53 (python, numpy int64 scalars, int64 arrays and Series) and on -0.0',
     'transitivity is claimed over instants of one resolution class: datetime, pandas.Timestamp, numpy.datetime64[s|us]; datetime.date and datetime64[D] take part in the '
     'pair laws only, because numpy makes date == datetime64[D] == datetime64[s] == datetime while date != datetime, and eq agrees with == on plain values by the statement',
     'arrays of different dtype but equal cells: neither outcome is demanded (the statement gives only necessary conditions); near misses change shape, a cell, or the container type',
-    'Series names and index names are not part of the claim (index, columns and cells are)',
-    'pandas.NaT appears only as a scalar (a singleton, so identity decides) - datetime arrays holding NaT are outside the universe',
+    'Series names and index names are not part of the claim (index, columns and cells are): two columns cut out of one frame must be equal only when they also carry the same name',
+    'pandas.NaT appears as a scalar and as a cell of datetime64[s] arrays (a copy must be equal, NaT against a date must not); Series / DataFrame CELLS of datetime dtype are not generated',
+    'NaN / NaT among the index LABELS (float index holding NaN, DatetimeIndex holding NaT) are generated (left out only with PV_C14_EXCLUDE_FIXED=1): finding F32, fixed in /repo, replay replays/C14/F32-*.json; before the fix - '
+    'eq(s, s.copy()) is False for s = pd.Series([1., 2.], index=[1., nan]) because _eq.py:76 compares the index through _eq_attrs -> eq(Index, Index), which falls through to the '
+    'elementwise == of _eq.py:94-95 where NaN != NaN; the statement says NaN equals NaN at any depth and a value equals its structural copy. NaN column labels share the root cause and are not generated',
+    'session: an operand is changed in place only BETWEEN calls and every call is judged on the content it sees; nothing is demanded about eq leaving its operands untouched beyond that '
+    '(later calls on the same objects are judged by the content the harness gave them)',
 ]
 
 # ----------------------------------------------------------------------------- builder
@@ -36,11 +48,7 @@ def build(v, env):
             res = [build(x, env) for x in v[1]]
             return res if tag == 'list' else tuple(res)
         if tag in ('dict', 'Dict', 'dictattr'):
-            d = {k: build(x, env) for k, x in v[1]}
-            if tag == 'dict':
-                return d
-            import pyg_base
-            return getattr(pyg_base, tag)(d)
+            return _mkdict(tag, {k: build(x, env) for k, x in v[1]})
         if tag == 'arr':
             dtype, shape, flat = v[1], v[2], v[3]
             vals = [build(x, env) for x in flat]
@@ -48,26 +56,41 @@ def build(v, env):
                 a = np.empty(len(vals), dtype=object)
                 for i, x in enumerate(vals):
                     a[i] = x
+            elif dtype.startswith('datetime64'):
+                a = np.array([np.datetime64('NaT') if x is pd.NaT else x for x in vals], dtype=dtype)
             else:
                 a = np.array(vals, dtype=dtype)
             return a.reshape(shape)
         if tag == 'series':
-            idx, vals = _index(v[1]), [build(x, env) for x in v[2]]
+            idx, vals = _index(v[1], env), [build(x, env) for x in v[2]]
             return pd.Series(vals, index=idx, dtype=v[3])
         if tag == 'df':
-            idx = _index(v[1])
+            idx = _index(v[1], env)
             rows = [[build(x, env) for x in row] for row in v[3]]
             return pd.DataFrame(rows, index=idx, columns=list(v[2]), dtype='float64') if len(v[2]) else pd.DataFrame(index=idx)
     return build_scalar(v, env)
 
 
-def _index(spec):
+def _mkdict(tag, d):
+    if tag == 'dict':
+        return d
+    import pyg_base
+    return getattr(pyg_base, tag)(d)
+
+
+def _index(spec, env=None):
     if spec[0] == 'range':
         return pd.RangeIndex(spec[1])
-    return pd.DatetimeIndex([mkdt(o) for o in spec[1]])
+    if spec[0] == 'flt':            # float labels, possibly NaN (only generated behind INCLUDE_NAN_LABELS)
+        return pd.Index([build_scalar(o, env) for o in spec[1]], dtype='float64')
+    return pd.DatetimeIndex([pd.NaT if o is None else mkdt(o) for o in spec[1]])    # None = NaT label (only behind INCLUDE_NAN_LABELS)
 
 
 # ----------------------------------------------------------------------------- strategies
+
+INCLUDE_NAN_LABELS = os.environ.get('PV_C14_EXCLUDE_FIXED', '') != '1'      # NaN / NaT among the index labels: finding F32 (fixed), see ASSUMPTIONS
+
+BIG = [2 ** 53, 2 ** 53 + 1, 2 ** 53 + 2, -(2 ** 53) - 1, 2 ** 62 + 1]             # ints that float64 cannot tell from a neighbour
 
 _nan = st.integers(0, 1).map(lambda k: ['nan', k])
 _inst = st.tuples(st.sampled_from(['dt', 'ts', 'dt64s', 'dt64us']), st.integers(D0, D0 + 2), st.sampled_from([0, 3600])).map(
@@ -83,6 +106,10 @@ _npsc = st.one_of(
 _plain_scalar = st.one_of(st.none(), st.booleans(), st.integers(0, 2), st.sampled_from([0.0, 1.0, 2.5]), st.sampled_from(['', 'a', 'b', '1']))
 _scalar = st.one_of(_plain_scalar, _plain_scalar, _nan, st.sampled_from([['inf', 1], ['inf', -1]]), _inst, _npsc, st.just(['nat']))
 _scalar_all = st.one_of(_scalar, _daylike)
+# the wide scalar universe (pairs, copy_near, session): ints beyond 2**53 (python and int64), -0.0, a two-character string
+_wide_extra = st.one_of(st.sampled_from(BIG), st.sampled_from(BIG), st.just(-0.0), st.just('ab'), st.sampled_from(BIG).map(lambda i: ['np', 'int64', i]),
+                        st.just(['np', 'float64', -0.0])).map(lambda v: v)      # .map keeps it ONE branch of the union below (about 1 leaf in 25)
+_scalar_wide = st.one_of(_plain_scalar, _plain_scalar, _nan, st.sampled_from([['inf', 1], ['inf', -1]]), _inst, _npsc, st.just(['nat']), _daylike, _wide_extra)
 
 _SHAPES = [[0], [1], [2], [1, 1], [2, 1], [1, 2], [2, 2], [0, 2], [2, 3], []]
 
@@ -95,35 +122,42 @@ def _prod(shape):
 
 
 @st.composite
-def _arr(draw, inner=None):
+def _arr(draw, inner=None, wide=False):
     shape = draw(st.sampled_from(_SHAPES))
     n = _prod(shape)
     dtype = draw(st.sampled_from(['int64', 'float64', 'object', 'str', 'datetime64[s]'] if inner is not None else ['int64', 'float64', 'str', 'datetime64[s]']))
     if dtype == 'int64':
-        flat = draw(st.lists(st.integers(0, 2), min_size=n, max_size=n))
+        flat = draw(st.lists(st.one_of(st.integers(0, 2), st.sampled_from(BIG)) if wide and draw(st.integers(0, 3)) == 0 else st.integers(0, 2), min_size=n, max_size=n))
     elif dtype == 'float64':
-        flat = draw(st.lists(st.one_of(st.sampled_from([0.0, 1.0, 2.5]), _nan), min_size=n, max_size=n))
+        flat = draw(st.lists(st.one_of(st.sampled_from([0.0, 1.0, 2.5, 0.0, 1.0, 2.5, -0.0] if wide else [0.0, 1.0, 2.5]), _nan), min_size=n, max_size=n))
     elif dtype == 'str':
         flat = draw(st.lists(st.sampled_from(['a', 'b', '']), min_size=n, max_size=n))
         dtype = '<U2'
     elif dtype == 'datetime64[s]':
-        flat = draw(st.lists(st.integers(D0, D0 + 2).map(lambda o: ['dt', o, 0]), min_size=n, max_size=n))
+        cell = st.integers(D0, D0 + 2).map(lambda o: ['dt', o, 0])
+        flat = draw(st.lists(st.one_of(cell, cell, cell, st.just(['nat'])) if wide else cell, min_size=n, max_size=n))
     else:
         flat = draw(st.lists(inner, min_size=n, max_size=n))
     return ['arr', dtype, shape, flat]
 
 
 @st.composite
-def _pandas(draw):
+def _pandas(draw, wide=False):
     n = draw(st.integers(0, 3))
     idx = draw(st.one_of(st.just(['range', n]), st.lists(st.integers(D0, D0 + 5), min_size=n, max_size=n, unique=True).map(lambda o: ['dates', sorted(o)]),
                          # labels need not be unique nor sorted: "equal only if index, columns and all cells match" is about positions
                          st.lists(st.integers(D0, D0 + 1), min_size=n, max_size=n).map(lambda o: ['dates', o])))
-    cell = st.one_of(st.sampled_from([0.0, 1.0, 2.5]), _nan)
+    if wide and INCLUDE_NAN_LABELS and n and draw(st.integers(0, 3)) == 0:
+        k = draw(st.integers(0, n - 1))
+        if draw(st.booleans()):
+            idx = ['flt', [float(i) for i in range(k)] + [['nan', 0]] + [float(i) for i in range(k + 1, n)]]
+        else:
+            idx = ['dates', [D0 + i for i in range(k)] + [None] + [D0 + i for i in range(k + 1, n)]]
+    cell = st.one_of(st.sampled_from([0.0, 1.0, 2.5, 0.0, 1.0, 2.5, -0.0] if wide else [0.0, 1.0, 2.5]), _nan)
     if draw(st.booleans()):
         kind = draw(st.sampled_from(['float64', 'float64', 'int64', 'object']))
         if kind == 'int64':
-            vals = draw(st.lists(st.integers(0, 2), min_size=n, max_size=n))
+            vals = draw(st.lists(st.one_of(st.integers(0, 2), st.sampled_from(BIG)) if wide and draw(st.integers(0, 3)) == 0 else st.integers(0, 2), min_size=n, max_size=n))
         elif kind == 'object':
             vals = draw(st.lists(st.one_of(st.sampled_from(['a', 'b']), st.none(), st.integers(0, 2)), min_size=n, max_size=n))
         else:
@@ -134,19 +168,29 @@ def _pandas(draw):
     return ['df', idx, cols, rows]
 
 
-def _containers(inner):
+def _containers(inner, wide=False):
     keys = st.sampled_from(['a', 'b', 'c'])
     items = st.lists(st.tuples(keys, inner).map(list), max_size=3, unique_by=lambda kv: kv[0])
     return st.one_of(
         st.lists(inner, max_size=3).map(lambda v: ['list', v]),
         st.lists(inner, max_size=3).map(lambda v: ['tuple', v]),
         items.map(lambda v: ['dict', v]), items.map(lambda v: ['Dict', v]), items.map(lambda v: ['dictattr', v]),
-        _arr(inner))
+        _arr(inner, wide))
 
+
+# numbers only (what a vectorised comparison would take): lists / tuples / dict values of python ints, floats, NaN, -0.0 with an int beyond 2**53 next to a float
+_numbers_only = st.tuples(st.sampled_from(['list', 'tuple', 'dict']), st.sampled_from(BIG),
+                          st.lists(st.one_of(st.sampled_from([0.5, 1.0, -0.0, 2.5]), st.integers(0, 2), _nan, st.sampled_from(BIG)), min_size=1, max_size=3),
+                          st.integers(0, 3)).map(
+    lambda t: (lambda cells: [t[0], cells] if t[0] != 'dict' else ['dict', [['k%i' % i, c] for i, c in enumerate(cells)]])(t[2][:t[3]] + [t[1]] + t[2][t[3]:]))
 
 _leafy = st.one_of(_scalar_all, _arr(), _pandas())
 _l1 = st.one_of(_leafy, _containers(_leafy))
 _value = st.one_of(_leafy, _containers(_leafy), _containers(_l1), _containers(st.one_of(_l1, _containers(_l1))))
+
+_leafy_w = st.one_of(_scalar_wide, _arr(None, True), _pandas(True), _pandas(True).map(list))      # pandas twice (.map: identical branches are merged): the wide scalars must not thin it out
+_l1_w = st.one_of(_leafy_w, _containers(_leafy_w, True))
+_value_wide = st.one_of(_leafy_w, _containers(_leafy_w, True), _containers(_l1_w, True), _containers(st.one_of(_l1_w, _containers(_l1_w, True)), True), _numbers_only)
 
 # ----------------------------------------------------------------------------- spec-level analysis and mutation
 
@@ -183,9 +227,9 @@ def has_nan(v):
 
 
 def is_plain(v):
-    """NaN-free scalars / lists / tuples / exact dicts of python types only"""
+    """NaN-free scalars / lists / tuples / exact dicts of python types only (numbers, strings, None, datetime.datetime / date, +-inf)"""
     t = tag(v)
-    if t == 'scalar':
+    if t in ('scalar', 'dt', 'date', 'inf'):
         return True
     if t in ('list', 'tuple'):
         return all(is_plain(x) for x in v[1])
@@ -246,14 +290,74 @@ def _different_leaf(v):
     raise ValueError(v)
 
 
-def _mutations(v, path=()):
-    """all (kind, mutated spec) candidates obtained by ONE definite change somewhere in v"""
+def _float_collision(v):
+    """an int w != v that float64 cannot tell from v (v is an int beyond 2**53)"""
+    for w in (int(float(v)), v + 1, v - 1, v + 2, v - 2):
+        if w != v and float(w) == float(v) and abs(w) < 2 ** 63:
+            return w
+    return None                     # e.g. 2**53 + 2: both neighbours round away from it
+
+
+def _is_big(x):
+    return isinstance(x, int) and not isinstance(x, bool) and abs(x) >= 2 ** 53
+
+
+def _is_negzero(x):
+    return isinstance(x, float) and x == 0 and math.copysign(1.0, x) < 0
+
+
+def _scalar_wide_mutations(v):
+    """class 18 ("a scalar that is a sequence") and class 15 near misses of scalar spec v: every one is a definite change"""
+    out = []
+    t = tag(v)
+    if _is_big(v) and _float_collision(v) is not None:
+        out.append(('bigint_float_collision', _float_collision(v)))
+    if t == 'np' and _is_big(v[2]) and _float_collision(v[2]) is not None:
+        out.append(('bigint_float_collision', ['np', v[1], _float_collision(v[2])]))
+    typed = None
+    if t == 'scalar':
+        if isinstance(v, bool):
+            typed = 'bool'
+        elif isinstance(v, int):
+            typed = 'int64'
+        elif isinstance(v, float):
+            typed = 'float64'
+        elif isinstance(v, str) and len(v) <= 2:
+            typed = '<U2'
+    elif t == 'dt':
+        typed = 'datetime64[s]'
+    elif t == 'nan':
+        typed = 'float64'
+    if typed in ('bool', '<U2', 'datetime64[s]') or t == 'nan':       # int / float already have wrap_arr in the narrow list
+        out.append(('wrap_arr_typed', ['arr', typed, [1], [v]]))
+    out.append(('wrap_arr_obj', ['arr', 'object', [1], [v]]))
+    # the scalar against a longer container filled with it: numpy / pandas broadcast scalar == container to "all cells True"
+    if typed is not None:
+        out.append(('broadcast_arr', ['arr', typed, [2], [v, v]]))
+        out.append(('broadcast_arr', ['arr', typed, [2, 2], [v, v, v, v]]))
+    out.append(('broadcast_arr_obj', ['arr', 'object', [2], [v, v]]))
+    out.append(('broadcast_series', ['series', ['range', 2], [v, v], typed if typed in ('int64', 'float64') else 'object']))
+    if typed == 'float64':
+        out.append(('broadcast_df', ['df', ['range', 2], ['a', 'b'], [[v, v], [v, v]]]))
+    if isinstance(v, str) and len(v) >= 1:
+        out.append(('str_as_chars', ['list', list(v)]))
+        out.append(('str_as_chars', ['tuple', list(v)]))
+        out.append(('str_as_chars', ['arr', '<U2', [len(v)], list(v)]))
+    if t == 'scalar' and v is not None and not v:                       # 0, 0.0, -0.0, False, '' against the empty containers
+        for e in (['list', []], ['tuple', []], ['dict', []], ['arr', 'float64', [0], []], ['arr', '<U2', [0], []], ['series', ['range', 0], [], 'float64']):
+            out.append(('falsy_vs_empty', e))
+    return out
+
+
+def _mutations(v, wide=False):
+    """all (kind, mutated spec) candidates obtained by ONE definite change somewhere in v
+    (wide=True appends the candidates of classes 15 and 18; the narrow list is kept as it was so that stored replays keep their meaning)"""
     out = []
     t = tag(v)
 
     def sub(children, rebuild):
         for i, c in enumerate(children):
-            for kind, m in _mutations(c):
+            for kind, m in _mutations(c, wide):
                 out.append((kind, rebuild(i, m)))
     if t == 'scalar' or t in ('nan', 'inf', 'dt', 'ts', 'date', 'dt64', 'nat', 'np'):
         out.append(('leaf', _different_leaf(v)))
@@ -265,6 +369,8 @@ def _mutations(v, path=()):
         if v is None:
             out.append(('none_vs_empty_arr', ['arr', 'float64', [0], []]))
             out.append(('none_vs_empty_list', ['list', []]))
+        if wide:
+            out.extend(_scalar_wide_mutations(v))
         return out
     if t in ('list', 'tuple'):
         out.append(('ctype', ['tuple' if t == 'list' else 'list', v[1]]))
@@ -300,6 +406,10 @@ def _mutations(v, path=()):
             out.append(('ctype', ['tuple', flat]))
         if n == 1:
             out.append(('unwrap', flat[0]))
+        if wide and dtype == 'datetime64[s]':
+            for i, c in enumerate(flat):
+                out.append(('cell_from_nat', ['arr', dtype, shape, flat[:i] + [['dt', D0 + 9, 0]] + flat[i + 1:]]) if tag(c) == 'nat' else
+                           ('cell_to_nat', ['arr', dtype, shape, flat[:i] + [['nat']] + flat[i + 1:]]))
         sub(flat, lambda i, m: ['arr', dtype if dtype == 'object' else _mut_dtype(dtype, m), shape, flat[:i] + [m] + flat[i + 1:]])
         out[:] = [(k, m) for k, m in out if _arr_ok(m)]
         return out
@@ -316,6 +426,8 @@ def _mutations(v, path=()):
                     out.append(('cell_to_nan', ['series', idx, vals[:i] + [['nan', 0]] + vals[i + 1:], dtype])) if tag(c) != 'nan' else None
                 elif dtype == 'int64':
                     out.append(('cell', ['series', idx, vals[:i] + [c + 3] + vals[i + 1:], dtype]))
+                    if wide and _is_big(c) and _float_collision(c) is not None:
+                        out.append(('bigint_float_collision', ['series', idx, vals[:i] + [_float_collision(c)] + vals[i + 1:], dtype]))
                 else:
                     out.append(('cell', ['series', idx, vals[:i] + ['zz'] + vals[i + 1:], dtype]))
         out.append(('length', ['series', _grow_index(idx), vals + [1.0 if dtype == 'float64' else 1], dtype]))
@@ -356,7 +468,7 @@ def _arr_ok(m):
             return False
         if m[1] == '<U2' and not (isinstance(x, str) and len(x) <= 2):
             return False
-        if m[1] == 'datetime64[s]' and t != 'dt':
+        if m[1] == 'datetime64[s]' and t not in ('dt', 'nat'):
             return False
     return True
 
@@ -364,13 +476,17 @@ def _arr_ok(m):
 def _shift_index(idx):
     if idx[0] == 'range':
         return ['dates', [D0 + i for i in range(idx[1])]]
-    return ['dates', [o + 10 for o in idx[1]]]
+    if idx[0] == 'flt':
+        return ['flt', [50.0 if tag(o) == 'nan' else o + 10.0 for o in idx[1]]]
+    return ['dates', [D0 + 30 if o is None else o + 10 for o in idx[1]]]
 
 
 def _grow_index(idx):
     if idx[0] == 'range':
         return ['range', idx[1] + 1]
-    return ['dates', idx[1] + [max(idx[1] + [D0]) + 20]]
+    if idx[0] == 'flt':
+        return ['flt', idx[1] + [99.0]]
+    return ['dates', idx[1] + [max([o for o in idx[1] if o is not None] + [D0]) + 20]]
 
 
 def _twin(v, pick):
@@ -398,6 +514,10 @@ def _eq(what, x, y):
     return bool(r)
 
 
+def _members(v):
+    return [x[1] for x in v[1]] if tag(v) == 'dict' else v[1]
+
+
 def _classes(*specs):
     cls = set()
     for v in specs:
@@ -412,17 +532,38 @@ def _classes(*specs):
             cls.add('duplicate_index_labels')
         if has(v, lambda x: tag(x) == 'arr'):
             cls.add('array')
+        if has(v, _is_big):
+            cls.add('int_beyond_2**53')
+        if has(v, _is_negzero):
+            cls.add('negative_zero')
+        if has(v, lambda x: tag(x) == 'arr' and x[1] == 'datetime64[s]' and any(tag(c) == 'nat' for c in x[3])):
+            cls.add('nat_in_datetime_array')
+        if has(v, lambda x: tag(x) in ('series', 'df') and x[1][0] != 'range' and any(o is None or tag(o) == 'nan' for o in x[1][1])):
+            cls.add('nan_or_nat_index_label')
+        if tag(v) in ('list', 'tuple', 'dict') and len(v[1]) >= 2 and any(_is_big(c) for c in _members(v)) and any(isinstance(c, float) for c in _members(v)) \
+                and all(tag(c) == 'nan' or (isinstance(c, (int, float)) and not isinstance(c, bool)) for c in _members(v)):
+            cls.add('numbers_only_bigint_next_to_float')
         if tag(v) in CONT and has(v, lambda x: x is not v and tag(x) in CONT):
             cls.add('nested')
     return sorted(cls)
 
 
+def _pick_from(ms, prefer):
+    """the candidates of the preferred kind when there are any (keeps rare near misses frequent), else all of them"""
+    if prefer:
+        sel = [c for c in ms if c[0] == prefer]
+        if sel:
+            return sel
+    return ms
+
+
 def run_pairs(spec):
     from pyg_base import in_
     vx, vy = spec['x'], spec['y']
+    kind = None
     if spec.get('mut') is not None:
-        ms = _mutations(vx)
-        vy = ms[spec['mut'] % len(ms)][1]
+        ms = _pick_from(_mutations(vx, bool(spec.get('w'))), spec.get('prefer'))
+        kind, vy = ms[spec['mut'] % len(ms)]
     env = Env()
     x, y = build(vx, env), build(vy, env)
     sx, sy = short(x, 120), short(y, 120)
@@ -445,6 +586,14 @@ def run_pairs(spec):
         check(not rxy, 'eq(%s, %s) is True although one is a %s and the other a scalar', x, y, type(x if tag(vx) in CONT else y).__name__)
     nt = tag(vx) in CONT or tag(vy) in CONT or has_nan(vx) or has_nan(vy)
     cls = _classes(vx, vy) + ['equal' if rxy else 'unequal'] + (['plain'] if plain else [])
+    if spec.get('how') == 'twin' and repr(vx) != repr(vy):
+        cls.append('one_value_in_two_raw_types')        # a leaf replaced by an equal value of another raw type (python / numpy number, datetime / Timestamp / datetime64)
+        if tag(vx) in CONT:
+            cls.append('one_value_in_two_raw_types_inside_container')
+    if spec.get('how') == 'redtype' and repr(vx) != repr(vy):
+        cls.append('array_same_shape_other_dtype')
+    if kind is not None and (kind.startswith('broadcast') or kind in ('str_as_chars', 'falsy_vs_empty', 'wrap_arr_typed', 'wrap_arr_obj')):
+        cls.append('scalar_vs_sequence')
     return dict(nt=nt, cls=cls)
 
 
@@ -467,7 +616,7 @@ def run_copy_near(spec):
         a, b = build(vx, Env()), build(vr, Env())
         check(_eq('%s, the same with dict keys inserted in reverse order' % short(a, 150), a, b) and _eq('reverse order first', b, a),
               'eq is False for %s and the same value with its dicts written in reverse key order', a)
-    ms = _mutations(vx)
+    ms = _pick_from(_mutations(vx, bool(spec.get('w'))), spec.get('prefer'))
     kind, vm = ms[spec['mut'] % len(ms)]
     x = build(vx, Env())
     c = build(vx, Env())          # fresh NaN objects, fresh containers
@@ -479,6 +628,8 @@ def run_copy_near(spec):
     check(not _eq('%s, %s' % (sx, sm), x, m), 'eq(%s, %s) is True although they differ (%s)', x, m, kind)
     check(not _eq('%s, %s' % (sm, sx), m, x), 'eq(%s, %s) is True although they differ (%s)', m, x, kind)
     cls = _classes(vx) + ['near=' + kind] + (['dict_key_order_permuted'] if vr != vx else [])
+    if kind.startswith('broadcast') or kind in ('str_as_chars', 'falsy_vs_empty', 'wrap_arr_typed', 'wrap_arr_obj'):
+        cls.append('scalar_vs_sequence')
     return dict(nt=tag(vx) in CONT or has_nan(vx), cls=cls)
 
 
@@ -580,15 +731,310 @@ def run_large(spec):
     return dict(nt=True, cls=['kind=' + spec['kind'], 'n=%i' % spec['n'], 'nan' if spec['nan_every'] else 'nan_free', 'how=' + spec['how']])
 
 
+def _redtype(v, pick):
+    """the first array inside v re-written with the same shape and another dtype (same cells as objects, or other cells): eq must stay a symmetric boolean that never raises"""
+    t = tag(v)
+    if t == 'arr':
+        n = len(v[3])
+        alts = [['arr', d, v[2], cells] for d, cells in (('object', v[3]), ('<U2', ['a'] * n), ('object', [None] * n), ('float64', [1.0] * n), ('int64', [1] * n), ('float64', [['nan', 0]] * n))
+                if d != v[1] or d == 'object']
+        return alts[pick % len(alts)]
+    if t in ('list', 'tuple'):
+        for i, c in enumerate(v[1]):
+            if has(c, lambda x: tag(x) == 'arr'):
+                return [t, v[1][:i] + [_redtype(c, pick)] + v[1][i + 1:]]
+    if t in ('dict', 'Dict', 'dictattr'):
+        for i, (k, c) in enumerate(v[1]):
+            if has(c, lambda x: tag(x) == 'arr'):
+                return [t, v[1][:i] + [[k, _redtype(c, pick)]] + v[1][i + 1:]]
+    return v
+
+
+_arr_values = st.one_of(_arr(_leafy_w, True), _arr(None, True).map(list), _containers(_arr(None, True)))
+# 'prefer' names a rare near-miss kind that is taken whenever x offers it (x holds an int beyond 2**53: the neighbour float64 cannot tell from it)
+_prefer = st.sampled_from([None, None, 'bigint_float_collision'])
 _pair = st.one_of(
-    st.tuples(_value, _value).map(lambda t: dict(x=t[0], y=t[1], mut=None)),
-    st.tuples(_value, st.integers(0, 10 ** 6)).map(lambda t: dict(x=t[0], y=None, mut=t[1])),
-    st.tuples(_value, st.integers(0, 10 ** 6)).map(lambda t: dict(x=t[0], y=_twin(t[0], t[1]), mut=None)),
-    st.tuples(_scalar_all, _scalar_all).map(lambda t: dict(x=t[0], y=t[1], mut=None)),
+    st.tuples(_value_wide, _value_wide).map(lambda t: dict(x=t[0], y=t[1], mut=None)),
+    st.tuples(_value_wide, st.integers(0, 10 ** 6), st.integers(0, 1), _prefer).map(lambda t: dict(x=t[0], y=None, mut=t[1], w=max(t[2], int(t[3] is not None)), prefer=t[3])),
+    # y derived from x: a value-equal twin of another raw type, or (1 in 4) the first array of x re-written in another dtype
+    st.tuples(_value_wide, st.integers(0, 10 ** 6), st.integers(0, 3), _arr_values).map(
+        lambda t: dict(x=t[0], y=_twin(t[0], t[1]), mut=None, how='twin') if t[2] else dict(x=t[3], y=_redtype(t[3], t[1]), mut=None, how='redtype')),
+    st.tuples(_scalar_wide, _scalar_wide).map(lambda t: dict(x=t[0], y=t[1], mut=None)),
 )
-_copy_near = st.tuples(_value, st.integers(0, 10 ** 6)).map(lambda t: dict(x=t[0], mut=t[1]))
+_copy_near = st.tuples(_value_wide, st.integers(0, 10 ** 6), st.integers(0, 1), _prefer).map(lambda t: dict(x=t[0], mut=t[1], w=max(t[2], int(t[3] is not None)), prefer=t[3]))
 _derive = st.tuples(st.sampled_from(['copy', 'twin', 'twin', 'twin2', 'near', 'other']), st.integers(0, 10 ** 6)).map(list)
 _triple = st.tuples(_value, _derive, _derive, _value).map(lambda t: dict(x=t[0], derive=[t[1], t[2]], other=t[3]))
+
+# ----------------------------------------------------------------------------- session: the same objects asked several times; identity among the inputs
+
+_WRAPS = [None, None, 'list', 'tuple', 'dict', 'Dict', 'arr']
+
+
+def _wrap(kind, obj):
+    """an outer container around obj (obj first, a plain member after it)"""
+    if kind == 'list':
+        return [obj, 'tail']
+    if kind == 'tuple':
+        return (obj, 'tail')
+    if kind in ('dict', 'Dict'):
+        return _mkdict(kind, {'a': obj, 'b': 'tail'})
+    a = np.empty(2, dtype=object)
+    a[0] = obj
+    a[1] = 'tail'
+    return a
+
+
+def _set_member(kind, outer, obj):
+    if kind in ('dict', 'Dict'):
+        outer['a'] = obj
+    else:
+        outer[0] = obj
+
+
+def _assignable(va, vb):
+    """can an object built from spec va be given the content of vb IN PLACE (same python type, and for arrays / pandas the same geometry)?"""
+    ta, tb = tag(va), tag(vb)
+    if ta != tb:
+        return False
+    if ta in ('list', 'dict', 'Dict', 'dictattr'):
+        return True
+    if ta == 'arr':
+        return va[1] == vb[1] and va[2] == vb[2] and len(va[3]) >= 1
+    if ta == 'series':
+        return va[1] == vb[1] and va[3] == vb[3] and len(va[2]) >= 1
+    if ta == 'df':
+        return va[1] == vb[1] and va[2] == vb[2] and len(va[2]) >= 1 and len(va[3]) >= 1
+    return False
+
+
+def _assign(y, src):
+    """y := content of src, in place (y stays the same object)"""
+    if isinstance(y, list):
+        y[:] = src
+    elif isinstance(y, dict):
+        y.clear()
+        y.update(src)
+    elif isinstance(y, np.ndarray):
+        y[...] = src
+    elif isinstance(y, pd.Series):
+        y.iloc[:] = src.values
+    else:
+        y.iloc[:, :] = src.values
+    if type(y) is not type(src) or repr(y) != repr(src):
+        raise HarnessError('in-place assignment did not take: %r vs %r' % (y, src))
+
+
+def _session_inplace(spec, vx, kind, vm):
+    """classes 11 / 12: X and Y are built once; Y is changed in place between the calls and changed back; every call is judged on the content at that moment"""
+    from pyg_base import in_
+    wrap = spec['wrap']
+    x, y, m, c = build(vx, Env()), build(vx, Env()), build(vm, Env()), build(vx, Env())
+    direct = _assignable(vx, vm)
+    if not direct and wrap in (None, 'tuple'):
+        wrap = 'list'
+    X, Y = (x, y) if wrap is None else (_wrap(wrap, x), _wrap(wrap, y))
+    seq = [['unrelated'], Y]                      # the caller's own list, passed to every in_ call
+    sx = short(X, 120)
+
+    def ask(stage, expect, shown):
+        r = [_eq('%s, %s) [%s]; (same two objects as in the earlier calls' % (sx, shown, stage), X, Y),
+             _eq('%s, %s) [%s]; (same two objects as in the earlier calls' % (shown, sx, stage), Y, X)]
+        r.append(bool(call('in_(%s, [.., %s]) [%s]' % (sx, shown, stage), in_, X, seq)))
+        check(_eq('%s, itself) [%s]; (' % (shown, stage), Y, Y), 'eq(Y, Y) is False %s for Y = %s', stage, Y)
+        # the stage ends with the question the next stage starts with: nothing but the in-place change lies between the two calls
+        r.append(bool(call('in_(%s, [.., %s]) [%s], asked again' % (sx, shown, stage), in_, X, seq)))
+        r.append(_eq('%s, %s) [%s], asked again; (same two objects as in the earlier calls' % (sx, shown, stage), X, Y))
+        for which, got in zip(('eq(X, Y)', 'eq(Y, X)', 'in_(X, [.., Y])', 'in_(X, [.., Y]) asked again', 'eq(X, Y) asked again'), r):
+            check(got == expect, '%s = %s %s, expected %s: X = %s, Y = %s (X, Y and the list are the same objects in all calls of this session)', which, got, stage, expect, X, Y)
+    ask('first call, Y is a structural copy of X', True, short(Y, 120))
+    if direct:
+        _assign(y, m)
+        how = 'changed_in_place_at_depth' if wrap else 'changed_in_place_top'
+    else:
+        _set_member(wrap, Y, m)
+        how = 'member_replaced_in_place'
+    ask('after Y was changed in place (%s, %s)' % (kind, how), False, short(Y, 120))
+    if direct:
+        _assign(y, c)
+    else:
+        _set_member(wrap, Y, c)
+    ask('after Y was changed back in place', True, short(Y, 120))
+    return [how, 'same_list_object_passed_to_in_', 'state_between_calls']
+
+
+def _same_spec(a, b):
+    return repr(a) == repr(b)
+
+
+def _share(vs, vref, xref, env, stats, top=False):
+    """build spec vs, re-using the member OBJECTS of xref (built from vref) wherever the two specs agree"""
+    if not top and _same_spec(vs, vref):
+        stats['members'] += 1
+        if tag(vs) in CONT:
+            stats['containers'] += 1
+        if tag(vs) == 'nan':
+            stats['nan'] += 1
+        return xref
+    ts, tr = tag(vs), tag(vref)
+    if ts in ('list', 'tuple') and tr in ('list', 'tuple'):
+        kids = [_share(c, vref[1][i], xref[i], env, stats) if i < len(vref[1]) else build(c, env) for i, c in enumerate(vs[1])]
+        return kids if ts == 'list' else tuple(kids)
+    if ts in ('dict', 'Dict', 'dictattr') and tr in ('dict', 'Dict', 'dictattr'):
+        ref = dict((k, c) for k, c in vref[1])
+        return _mkdict(ts, {k: (_share(c, ref[k], dict.__getitem__(xref, k), env, stats) if k in ref else build(c, env)) for k, c in vs[1]})
+    if ts == 'arr' and tr == 'arr':
+        if _same_spec(vs, vref):
+            stats['view'] += 1
+            return xref.view()                                  # another array object on the same memory
+        if vs[1] == 'object' and vref[1] == 'object' and len(vs[3]) == len(vref[3]):
+            ref = xref.reshape(-1)
+            a = np.empty(len(vs[3]), dtype=object)
+            for i, c in enumerate(vs[3]):
+                a[i] = _share(c, vref[3][i], ref[i], env, stats)
+            return a.reshape(vs[2])
+    if ts in ('series', 'df') and tr == ts:
+        if _same_spec(vs, vref):
+            stats['view'] += 1
+            return xref.copy(deep=False)
+        m = build(vs, env)
+        if vs[1] == vref[1]:
+            m.index = xref.index
+            stats['index'] += int(m.index is xref.index)
+        if ts == 'df' and vs[2] == vref[2]:
+            m.columns = xref.columns
+        return m
+    return build(vs, env)
+
+
+def _session_shared(spec, vx, kind, vm):
+    """class 14: the copy and the near miss hold the very member objects of x (one NaN object, one array, one frame, one index in both operands)"""
+    env = Env()
+    x = build(vx, env)
+    st_c, st_m = dict(members=0, containers=0, nan=0, view=0, index=0), dict(members=0, containers=0, nan=0, view=0, index=0)
+    c = _share(vx, vx, x, env, st_c, top=True)
+    m = _share(vm, vx, x, env, st_m, top=True)
+    sx, sm = short(x, 150), short(m, 150)
+    check(_eq('%s, a copy holding the same member objects' % sx, x, c) and _eq('a copy holding the same member objects, %s' % sx, c, x),
+          'eq is False for %s and a copy of it that holds the same member objects', x)
+    check(not _eq('%s, %s); (both hold the same member objects except for the change' % (sx, sm), x, m) and
+          not _eq('%s, %s); (both hold the same member objects except for the change' % (sm, sx), m, x),
+          'eq is True for %s and %s although they differ (%s); apart from that change both operands hold the very same member objects', x, m, kind)
+    cls = []
+    if st_c['members'] or st_m['members']:
+        cls.append('operands_share_member_objects')
+    if st_c['containers'] or st_m['containers']:
+        cls.append('operands_share_container_members')
+    if st_c['nan'] or st_m['nan']:
+        cls.append('operands_share_nan_object')
+    if st_c['view']:
+        cls.append('operand_is_view_of_other')
+    if st_m['index']:
+        cls.append('operands_share_index_object')
+    return cls
+
+
+def _session_twice(spec, vx, kind, vm):
+    """class 14: one object sitting twice in X, against containers of separate copies"""
+    wrap = spec['wrap'] if spec['wrap'] in ('list', 'tuple', 'dict', 'Dict') else 'list'
+
+    def W(p, q):
+        return [p, q] if wrap == 'list' else (p, q) if wrap == 'tuple' else _mkdict(wrap, {'a': p, 'b': q})
+    a = build(vx, Env())
+    X, X2, C = W(a, a), W(a, a), W(build(vx, Env()), build(vx, Env()))
+    M1, M2 = W(build(vx, Env()), build(vm, Env())), W(build(vm, Env()), build(vx, Env()))
+    sx = short(X, 150)
+    check(_eq('%s (one object twice), another container of that object twice' % sx, X, X2), 'eq is False for two containers holding one object twice: %s', X)
+    check(_eq('%s (one object twice), separate copies' % sx, X, C) and _eq('separate copies, %s (one object twice)' % sx, C, X),
+          'eq is False for %s (one object twice) against a container of two separate copies', X)
+    for M in (M1, M2):
+        check(not _eq('%s (one object twice), %s' % (sx, short(M, 150)), X, M) and not _eq('%s, %s (one object twice)' % (short(M, 150), sx), M, X),
+              'eq is True for %s (one object twice) and %s although one member differs (%s)', X, M, kind)
+    return ['one_object_twice_in_operand']
+
+
+def _cell_same(a, b):
+    if tag(a) == 'nan' or tag(b) == 'nan':
+        return tag(a) == 'nan' and tag(b) == 'nan'
+    return a == b
+
+
+def _session_views(spec):
+    """class 14: rows / columns cut out of ONE array or frame (views on one buffer, one index); expected from the cells alone"""
+    kind, dtype, lines, labels = spec['kind'], spec['dtype'], spec['lines'], spec['labels']
+    env = Env()
+    k, r = len(lines), len(lines[0])
+    block = np.array([[build(c, env) for c in line] for line in lines], dtype=dtype)            # (k, r): one line per row
+    if kind == 'arr_rows':
+        cut = [block[i] for i in range(k)] + [block[0]]
+    elif kind == 'arr_cols':
+        base = np.ascontiguousarray(block.T)                                                     # (r, k): one line per column, interleaved in memory
+        cut = [base[:, i] for i in range(k)] + [base[:, 0]]
+    elif kind == 'df_cols':
+        base = pd.DataFrame(np.ascontiguousarray(block.T), index=pd.RangeIndex(r), columns=list(labels))
+        cut = [base.iloc[:, i] for i in range(k)] + [base.iloc[:, 0]]
+    else:
+        base = pd.DataFrame(block, index=pd.DatetimeIndex([mkdt(D0 + o) for o in labels]), columns=['c%i' % j for j in range(r)])
+        cut = [base.iloc[i] for i in range(k)] + [base.iloc[0]]
+    lines = lines + [lines[0]]
+    labels = list(labels) + [labels[0]]
+    cls = set(['views_cut_from_one_base', 'kind=' + kind])
+    for i in range(k + 1):
+        for j in range(k + 1):
+            if i == j:
+                continue
+            same_cells = all(_cell_same(a, b) for a, b in zip(lines[i], lines[j]))
+            got = _eq('%s number %i and %i of one %s: %s, %s' % ('row' if kind.endswith('rows') else 'column', i % k, j % k, 'array' if kind.startswith('arr') else 'DataFrame',
+                                                                short(cut[i], 100), short(cut[j], 100)), cut[i], cut[j])
+            back = _eq('the same two in reverse order', cut[j], cut[i])
+            check(got == back, 'eq is not symmetric on two pieces cut from one object: %s vs %s: %s / %s', cut[i], cut[j], got, back)
+            if not same_cells:
+                check(not got, 'eq is True for two pieces cut from one object although their cells differ: %s vs %s', cut[i], cut[j])
+                cls.add('views_unequal')
+            elif kind.startswith('arr') or labels[i] == labels[j]:       # Series names are outside the claim: equality is demanded only under one name
+                check(got, 'eq is False for two pieces cut from one object with the same cells%s: %s vs %s', '' if kind.startswith('arr') else ' and the same name', cut[i], cut[j])
+                cls.add('views_equal')
+    return sorted(cls)
+
+
+def run_session(spec):
+    mode = spec['mode']
+    if mode == 'views':
+        return dict(nt=True, cls=_session_views(spec) + ['mode=views'])
+    vx = spec['x']
+    ms = _pick_from(_mutations(vx, True), spec.get('prefer'))
+    if mode in ('inplace', 'shared') and spec.get('direct'):        # prefer the near misses that the very object Y can be turned into (same type and geometry, hence the same index)
+        ms = [c for c in ms if _assignable(vx, c[1])] or ms
+    kind, vm = ms[spec['mut'] % len(ms)]
+    cls = {'inplace': _session_inplace, 'shared': _session_shared, 'twice': _session_twice}[mode](spec, vx, kind, vm)
+    return dict(nt=tag(vx) in CONT or has_nan(vx) or mode != 'shared', cls=_classes(vx) + cls + ['mode=' + mode, 'near=' + kind])
+
+
+@st.composite
+def _views(draw):
+    kind = draw(st.sampled_from(['arr_rows', 'arr_cols', 'arr_cols', 'df_cols', 'df_cols', 'df_rows']))
+    dtype = draw(st.sampled_from(['float64', 'float64', 'int64']))
+    k, r = draw(st.integers(2, 3)), draw(st.integers(1, 3))
+    cell = st.integers(0, 2) if dtype == 'int64' else st.one_of(st.sampled_from([0.0, 1.0, 2.5]), _nan)
+    first = draw(st.lists(cell, min_size=r, max_size=r))
+    lines = [first]
+    for _ in range(k - 1):
+        how = draw(st.integers(0, 2))                   # an equal line, one cell changed, or an unrelated line
+        if how == 0:
+            lines.append(list(first))
+        elif how == 1:
+            i = draw(st.integers(0, r - 1))
+            lines.append(first[:i] + [draw(cell)] + first[i + 1:])
+        else:
+            lines.append(draw(st.lists(cell, min_size=r, max_size=r)))
+    labels = draw(st.lists(st.sampled_from(['a', 'a', 'b']), min_size=k, max_size=k)) if kind == 'df_cols' else draw(st.lists(st.integers(0, 1), min_size=k, max_size=k))
+    return dict(mode='views', kind=kind, dtype=dtype, lines=lines, labels=labels)
+
+
+_session_general = st.tuples(st.sampled_from(['inplace', 'inplace', 'inplace', 'shared', 'shared', 'twice']), _value_wide, st.integers(0, 10 ** 6), st.sampled_from(_WRAPS), _prefer,
+                             st.integers(0, 2)).map(lambda t: dict(mode=t[0], x=t[1], mut=t[2], wrap=t[3], prefer=t[4], direct=int(t[5] > 0)))
+_session_containers = st.tuples(st.sampled_from(['inplace', 'inplace', 'shared']), st.one_of(_pandas(True), _arr(_leafy_w, True), _containers(_l1_w, True)), st.integers(0, 10 ** 6),
+                                st.sampled_from(_WRAPS), st.integers(0, 2)).map(lambda t: dict(mode=t[0], x=t[1], mut=t[2], wrap=t[3], prefer=None, direct=int(t[4] > 0)))
+_session = st.one_of(*([_session_general.map(dict) for _ in range(5)] + [_session_containers.map(dict) for _ in range(3)] + [_views()]))     # .map: hypothesis merges identical branches
 
 # ----------------------------------------------------------------------------- the exhaustive pool
 
@@ -609,6 +1055,9 @@ POOL = [
     ['df', ['range', 0], ['a'], []], ['df', ['range', 2], [], [[], []]],
     ['dict', [['a', ['df', ['range', 2], ['a'], [[1.0], [2.0]]]]]], ['dict', [['a', ['df', ['range', 2], ['b'], [[1.0], [2.0]]]]]],
     ['list', [['series', ['range', 1], [1.0], 'float64']]],
+    # a scalar next to longer containers filled with it (numpy / pandas broadcast scalar == container), -0.0, NaT inside a datetime array
+    -0.0, ['arr', '<U2', [1], ['a']], ['arr', '<U2', [2], ['a', 'a']], ['arr', 'object', [2], [None, None]], ['arr', 'float64', [2], [1.0, 1.0]],
+    ['series', ['range', 2], [1.0, 1.0], 'float64'], ['arr', 'datetime64[s]', [2], [['dt', D0, 0], ['nat']]],
 ]
 
 
@@ -643,13 +1092,19 @@ def run_pool(spec):
 SUBS = [
     Sub('pairs', lambda tier: _pair, run_pairs, quick=4000, thorough=20000,
         rule='pairs (x, y) over scalars, numpy scalars, timestamps, lists/tuples/dict/Dict/dictattr, arrays (int/float/str/object/datetime64; shapes incl. 0-d, empty, 2-d), '
-             'Series/DataFrames, nested to depth 3; y independent, a one-step mutation of x, or a value-equal twin. Oracle: never raises, boolean, reflexive, symmetric, '
+             'Series/DataFrames, nested to depth 3, ints beyond 2**53, -0.0, NaT cells; y independent, a one-step mutation of x (incl. scalar vs a longer container filled with it), or a value-equal twin of another raw type. Oracle: never raises, boolean, reflexive, symmetric, '
              '== agreement on plain NaN-free values, in_ agrees with eq, False across container types / scalar-vs-container. non-trivial = a container or NaN involved',
-        floor=0.3, class_floors={'pandas': 0.05, 'array': 0.1, 'nan': 0.1, 'equal': 0.03}),
+        floor=0.3, class_floors={'pandas': 0.05, 'array': 0.1, 'nan': 0.1, 'equal': 0.03,
+                                 'one_value_in_two_raw_types': 0.03, 'one_value_in_two_raw_types_inside_container': 0.009, 'array_same_shape_other_dtype': 0.035,       # class 13
+                                 'int_beyond_2**53': 0.05, 'numbers_only_bigint_next_to_float': 0.006, 'negative_zero': 0.03, 'nat_in_datetime_array': 0.007,     # class 15
+                                 'scalar_vs_sequence': 0.01}),                                                                     # class 18
     Sub('copy_near', lambda tier: _copy_near, run_copy_near, quick=4000, thorough=20000,
         rule='x with a structural copy (fresh NaN objects) must be equal; x with one definite change (leaf, container type, length, key, reshape, wrap, index, columns, cell) '
-             'must be unequal, both directions. non-trivial = x is a container or holds NaN',
-        floor=0.3, class_floors={'near=ctype': 0.03, 'near=reshape': 0.01, 'near=leaf': 0.05, 'duplicate_column_labels': 0.01, 'duplicate_index_labels': 0.005}),
+             'must be unequal, both directions; also an int beyond 2**53 against the neighbour float64 cannot tell from it, a scalar against arrays / Series / frames filled with it, '
+             'a string against its characters, falsy scalars against empty containers. non-trivial = x is a container or holds NaN',
+        floor=0.3, class_floors={'near=ctype': 0.03, 'near=reshape': 0.01, 'near=leaf': 0.05, 'duplicate_column_labels': 0.01, 'duplicate_index_labels': 0.005,
+                                 'int_beyond_2**53': 0.045, 'near=bigint_float_collision': 0.01, 'negative_zero': 0.025, 'nat_in_datetime_array': 0.007,          # class 15
+                                 'scalar_vs_sequence': 0.04, 'near=broadcast_series': 0.008, 'near=broadcast_arr': 0.005}),                                      # class 18
     Sub('triples', lambda tier: _triple, run_triples, quick=2500, thorough=15000,
         rule='triples (x, d1(x), d2(x)) with d in {copy, value-equal twin, double twin, near miss, unrelated}; all 9 eq values; symmetry, reflexivity and transitivity. '
              'non-trivial = at least one equal pair of differently written values',
@@ -658,6 +1113,19 @@ SUBS = [
         rule='lists, tuples, arrays (float/int/object, 1-d and 2-d), Series, DataFrames, dicts and lists of lists with 40-257 cells and NaN at every k-th cell: '
              'eq(x, structural copy) must be True and one changed / NaN-ed / dropped cell must make it False (size-dependent paths)',
         floor=0.5),
+    Sub('session', lambda tier: _session, run_session, quick=2500, thorough=12000,
+        rule='objects built ONCE and asked 2-12 times. inplace: eq(X, Y), eq(Y, X), in_(X, the same list) before / after Y is changed IN PLACE into a near miss (at top level, at depth inside an '
+             'untouched outer container, or by replacing a member) / after it is changed back - each call judged on the content at that moment. shared: a copy and a near miss that hold the very '
+             'member objects of x (NaN objects, arrays, frames, index), array views, shallow pandas copies. twice: one object sitting twice in a container against separate copies. views: rows / '
+             'columns cut out of one array or DataFrame compared with one another (expected from the cells). non-trivial = a container or NaN involved',
+        floor=0.3, class_floors={'state_between_calls': 0.15, 'same_list_object_passed_to_in_': 0.15,                                                         # classes 11, 12
+                                 'changed_in_place_top': 0.025, 'changed_in_place_at_depth': 0.025, 'member_replaced_in_place': 0.1,
+                                 'operands_share_member_objects': 0.025, 'operands_share_container_members': 0.01, 'operand_is_view_of_other': 0.02,              # class 14
+                                 'operands_share_index_object': 0.002, 'one_object_twice_in_operand': 0.025,
+                                 'views_cut_from_one_base': 0.04, 'views_equal': 0.04, 'views_unequal': 0.015}),
     EnumSub('pool_cube', enum_pool, run_pool, thorough_only=False, chunks=1,
             rule='the full %i x %i eq matrix of a fixed pool against structural copies, then every triple for transitivity (%i triples) - exhaustive' % (len(POOL), len(POOL), len(POOL) ** 3)),
 ]
+if INCLUDE_NAN_LABELS:
+    for _sub in SUBS[:2]:
+        _sub.class_floors['nan_or_nat_index_label'] = 0.008
